@@ -273,6 +273,7 @@ func (v *Verifier) newCtx(fn *ssa.Function, con *Contract) *FuncCtx {
 		assumptions: map[string]bool{}, trustedUsed: map[string]bool{}, unmodelled: map[string]bool{}, oblCount: map[string]int{},
 		pureDecl: map[string]bool{}, constGlobals: map[string]Term{}, uncontracted: map[string]bool{}, calleeContracts: map[string]bool{}, pureSig: map[string]string{}}
 	c.guard = tTrue
+	c.sc.onAssume = c.noteAssumption
 	if con != nil && math {
 		for _, n := range con.Notes {
 			if n == "theory strings" {
@@ -326,6 +327,7 @@ func (v *Verifier) verifyFunc(fn *ssa.Function, con *Contract) (res *FuncResult)
 		fr.params[p.Name()] = TV{T: t, Ty: p.Type()}
 		res.ModelVars = append(res.ModelVars, ModelVar{p.Name(), t})
 		c.assumeEntry(t, p.Type(), p.Name(), con)
+		c.noteValueRefs(t, p.Type())
 	}
 	for _, fv := range fn.FreeVars {
 		t := c.freshOfType("fv_"+fv.Name(), fv.Type())
@@ -365,6 +367,33 @@ func (v *Verifier) verifyFunc(fn *ssa.Function, con *Contract) (res *FuncResult)
 		}
 		c.sc.assume(t)
 		c.trustedUsed["definitional axiom in "+c.funcName+": "+oneLine(cl.Text)] = true
+	}
+	for _, name := range con.Uses {
+		var lm *Lemma
+		for _, l := range v.cs.Lemmas {
+			if l.Name == name && (l.Pkg == con.Pkg || l.Pkg == "") {
+				lm = l
+			}
+		}
+		if lm == nil {
+			c.stale = append(c.stale, fmt.Sprintf("%s:%d: uses unknown lemma %s", con.File, con.Line, name))
+			continue
+		}
+		lec := &evalCtx{c: c, st: st, old: st, bind: map[string]TV{}, pkgPath: lm.Pkg}
+		if lm.Pkg == "" {
+			lec.pkgPath = con.Pkg
+		}
+		t, err := lec.evalBool(lm.Clause.Expr)
+		if err != nil {
+			c.stale = append(c.stale, fmt.Sprintf("%s:%d: %v", lm.Clause.File, lm.Clause.Line, err))
+			continue
+		}
+		c.sc.assume(t)
+		if lm.Axiom {
+			c.trustedUsed["axiom "+lm.Name+": "+oneLine(lm.Clause.Text)] = true
+		} else {
+			c.calleeContracts["lemma "+lm.Name+" (proved separately)"] = true
+		}
 	}
 	// vacuity: the preconditions are satisfiable
 	c.sc.oblige(&Obligation{Name: c.funcName + "/cover/requires#1", Kind: "cover", Func: c.funcName, Props: c.props, Goal: tTrue, Cover: true, Detail: "preconditions and entry assumptions are satisfiable"})
@@ -477,10 +506,27 @@ func (c *FuncCtx) wfTerm(v Term, t types.Type) Term {
 
 // checkEnsures proves the postconditions at the join of all returns.
 func (fr *Frame) checkEnsures() {
-	c := fr.c
 	if fr.con == nil || len(fr.rets) == 0 {
 		return
 	}
+	if fr.con.PerReturn && len(fr.rets) > 1 {
+		// one set of obligations per return statement (in source order): easier for the solver
+		// than the join of all exits when postconditions are quantified
+		rets := append([]retInfo{}, fr.rets...)
+		sort.SliceStable(rets, func(i, j int) bool { return rets[i].pos < rets[j].pos })
+		all := fr.rets
+		for i, r := range rets {
+			fr.rets = []retInfo{r}
+			fr.checkEnsuresAt(fmt.Sprintf("@return%d", i+1))
+		}
+		fr.rets = all
+		return
+	}
+	fr.checkEnsuresAt("")
+}
+
+func (fr *Frame) checkEnsuresAt(suffix string) {
+	c := fr.c
 	var ies []inEdge
 	var conds []Term
 	for _, r := range fr.rets {
@@ -520,9 +566,9 @@ func (fr *Frame) checkEnsures() {
 			continue
 		}
 		// vacuity guard: the antecedent of a top-level implication must be reachable
-		if bin, ok := cl.Expr.(*CBin); ok && bin.Op == "==>" {
+		if bin, ok := cl.Expr.(*CBin); ok && bin.Op == "==>" && suffix == "" {
 			if a, err := ec.evalBool(bin.X); err == nil {
-				name := fmt.Sprintf("%s/cover/ensures-antecedent/%s", c.funcName, clauseLabel(cl, i))
+				name := fmt.Sprintf("%s/cover/ensures-antecedent/%s%s", c.funcName, clauseLabel(cl, i), suffix)
 				if fr.fn != c.top {
 					name = fmt.Sprintf("%s/cover@%s/ensures-antecedent/%s", c.funcName, shortFn(fr.fn, c.top), clauseLabel(cl, i))
 				}
@@ -530,7 +576,7 @@ func (fr *Frame) checkEnsures() {
 			}
 		}
 		c.pendingParts, c.pendingGuard = ec.clauseParts(cl.Expr), reach
-		fr.oblige("ensures", clauseLabel(cl, i), implies(reach, t), token.NoPos, oneLine(cl.Text))
+		fr.oblige("ensures", clauseLabel(cl, i)+suffix, implies(reach, t), token.NoPos, oneLine(cl.Text))
 	}
 	// frame: a pure / modifies-nothing function leaves every pre-existing heap object unchanged
 	exceptNames := modifiesPointees(fr.con)
@@ -571,7 +617,7 @@ func (fr *Frame) checkEnsures() {
 			if len(exceptNames) > 0 {
 				what = "modifies only *" + strings.Join(exceptNames, ", *")
 			}
-			fr.oblige("frame", sanitize(k), implies(reach, goal), token.NoPos, what+": "+k+" unchanged for every other object that existed at entry")
+			fr.oblige("frame", sanitize(k)+suffix, implies(reach, goal), token.NoPos, what+": "+k+" unchanged for every other object that existed at entry")
 		}
 	}
 	c.guard = saveGuard
@@ -585,6 +631,7 @@ func (v *Verifier) verifyLemma(lm *Lemma) *FuncResult {
 	con := &Contract{Ints: lm.Ints, Props: lm.Props}
 	c := v.newCtx(nil, con)
 	c.funcName = "lemma:" + lm.Name
+	c.inLemma = true
 	res.Script = c.sc
 	res.Ints = "bv"
 	if c.sc.mathInts {
